@@ -52,7 +52,10 @@
 //!
 //! Domain: see `run` (quick: every ordered edge sequence of <= 3 edges and every 4-edge multiset on <= 3 nodes, all
 //! (start,end) pairs, + whole-graph algorithms on 4 nodes; thorough: 4 nodes / 4 edges + seeded random graphs to 10 nodes;
-//! both tiers: `family_filtered` (typed edges, filtered find_path) and `family_cycles` (4-node graphs with cycles through the target)).
+//! both tiers: `family_filtered` (typed edges, filtered find_path), `family_cycles` (4-node graphs with cycles through the target),
+//! `family_improve` (find_all_weighted_paths on 4-node graphs with explicit weights 0/1/2: heavy direct edges next to lighter routes, ties,
+//! parallel edges) and `family_patterns` (variable-length patterns on 3-, 4- and 5-node graphs); find_all_weighted_paths also runs on every
+//! graph of the exhaustive enumerations).
 //! The exhaustive enumerations walk ONE engine per node count depth-first (create_edge to extend, delete_edge to
 //! backtrack; TensorStore::new costs ~1 ms, so a fresh engine per graph would not fit the time budget); the engine's
 //! current graph is always exactly the case graph, and every failure is re-evaluated on freshly built engines before it is
@@ -68,13 +71,41 @@
 //! and the two results joined again the same way; edge weights w increasing / w2 decreasing / wn shuffled in creation order
 //! so that a Kruskal-style implementation meets the merges in creation order, in reverse and in a mixed order) plus seeded
 //! random multigraphs (self-loops, parallel edges, directed and undirected edges mixed, isolated nodes).
+//! find_all_weighted_paths (C18.weighted.all_optimal; Outgoing steps like find_weighted_path): "Returns all paths with the minimum
+//! total weight between two nodes".  Checked as: total_weight == the Bellman-Ford distance computed here; every returned path is a
+//! legal walk start -> end whose edge weights sum to its own total_weight and to the minimum; the set of DISTINCT returned
+//! (node sequence, edge sequence) pairs equals the set of ALL minimum-weight walks, enumerated exhaustively here (every walk from the
+//! start whose running weight stays <= the minimum, up to 2n hops) -- paths that differ only in a parallel edge are different paths;
+//! PathNotFound iff the end is unreachable; NodeNotFound for a missing endpoint.  Graphs with a negative weight are left to
+//! C18.weighted.negative.  Precondition: no minimum-weight walk visits a node twice, i.e. no closed walk of total weight 0 (a
+//! zero-weight self-loop, a zero-weight undirected edge walked back and forth, a zero-weight cycle) lies on a minimum-weight walk.
+//! Otherwise the set of minimum-weight walks is infinite, "all" has no finite meaning under the walk reading, and the call is NOT
+//! made: on such an input (e.g. 0 -> 1 -> 2 with weights 1 and a zero-weight self-loop on node 1, query 0 -> 2)
+//! find_all_weighted_paths does not return and allocates without bound (observed once under a memory limit: aborted at 4 GB after
+//! 2.5 s); this is outside the property text (nothing is returned) and is reported, not asserted.
+//! "No path is returned twice" is part of the clause on graphs whose non-loop edges are all directed; on graphs with an undirected
+//! non-loop edge it is the separate clause C18.weighted.all_optimal.unique (as for C18.varpaths.cycles.unique: a returned list that
+//! repeats a path is not the set of all minimum paths).
+//! Variable-length patterns (C18.pattern.variable): `match_pattern` on (a)-[p *min..max]-(b) with node variables a, b and the path
+//! variable p.  Semantics from the code comments of `extend_variable_length_match` ("Skip visited nodes to prevent cycles", the start
+//! node is visited from the beginning): one match per SIMPLE path (no node repeats, so no edge repeats either; self-loops never
+//! match; a path may not return to its start) with min <= hops <= max whose start satisfies the first node pattern and whose end
+//! satisfies the last one; min = 0 additionally matches the empty path on a start node that satisfies the end pattern; paths that
+//! differ only in a parallel edge are different matches (as for find_variable_paths).  The clause compares the MULTISET of
+//! (a, b, path nodes, path edges) with the brute-force enumeration, requires a / b to be the two ends of p, matches_found == number
+//! of matches, truncated == false (all specification sets stay below default_match_limit = 1000), count_pattern_matches == the
+//! number of matches, pattern_exists == (the number is > 0).  Node patterns: unconstrained (candidates by scan), label "N" (label
+//! index), idx == i (property lookup); edge pattern: direction, optional edge type.
+//! Incoming / Both on graphs in which two non-loop edges join the same two nodes (parallel or antiparallel, directed or undirected)
+//! are the separate clause C18.pattern.variable.directions: the neighbour list of a step keeps ONE edge per neighbour reached over an
+//! incoming edge, so such paths are lost; Outgoing returns them.  All other Incoming / Both queries belong to C18.pattern.variable.
 //! Negative weights: only the unambiguous part of "negative weight => error" is asserted (C18.weighted.negative): an Ok
 //! answer never contains a negative edge, a NegativeWeight error names a real negative edge, and when every start->end
 //! walk needs a negative edge the call fails with NegativeWeight.
 use crate::fw::{Report, Rng, Tier};
 use graph_engine::{
-    AStarConfig, BiconnectedConfig, CommunityConfig, Direction, GraphEngine, GraphError, KCoreConfig, MstConfig, PropertyValue, SccConfig,
-    TraversalFilter, TriangleConfig, VariableLengthConfig,
+    AStarConfig, BiconnectedConfig, CommunityConfig, Direction, EdgePattern, GraphEngine, GraphError, KCoreConfig, MstConfig, NodePattern, PathPattern,
+    Pattern, PropertyValue, SccConfig, TraversalFilter, TriangleConfig, VariableLengthConfig,
 };
 use serde_json::{json, Value};
 use std::collections::HashMap;
@@ -91,16 +122,19 @@ struct G { n: usize, es: Vec<E> }
 enum Dir { Out, In, Both }
 
 #[derive(Clone, Copy, PartialEq, Eq, Debug)]
-enum K { Path, Weighted, AllPaths, Var, Trav, Astar, Scc, Mst, Kcore, Tri, Bicon, Comp, SccPart, MstForest }
+enum K { Path, Weighted, AllPaths, Var, Trav, Astar, Scc, Mst, Kcore, Tri, Bicon, Comp, SccPart, MstForest, AllWeighted, Pattern }
 
 /// One query.  `s`/`t` = endpoints (index n = missing node), `min`/`max` hop bounds (`max` = depth for
 /// traverse), `ty` = edge-type restriction, `et` = edge property filter t == "A"/"B",
 /// `excl` = bitmask of nodes excluded by the node filter (idx != i for every excluded i),
-/// `prop` = weight property 0 "w", 1 "w2", 2 "wn", 3 "nope" (absent => default 1.0), `und` = undirected flag.
+/// `prop` = weight property 0 "w", 1 "w2", 2 "wn", 3 "nope" (absent => default 1.0), `und` = undirected flag,
+/// `any` (pattern queries only) = bit 0: the start node pattern is unconstrained, bit 1: the end node pattern is unconstrained,
+/// bit 2: an unconstrained start pattern carries the label "N" (candidates through the label index instead of a scan),
+/// bit 3: only match_pattern is called (otherwise also count_pattern_matches and pattern_exists).
 #[derive(Clone, Copy, Debug)]
-struct Q { k: K, s: usize, t: usize, min: usize, max: usize, dir: Dir, ty: Option<u8>, et: Option<u8>, excl: u8, prop: u8, und: bool, cyc: bool }
+struct Q { k: K, s: usize, t: usize, min: usize, max: usize, dir: Dir, ty: Option<u8>, et: Option<u8>, excl: u8, prop: u8, und: bool, cyc: bool, any: u8 }
 
-const Q0: Q = Q { k: K::Scc, s: 0, t: 0, min: 0, max: 0, dir: Dir::Out, ty: None, et: None, excl: 0, prop: 0, und: false, cyc: false };
+const Q0: Q = Q { k: K::Scc, s: 0, t: 0, min: 0, max: 0, dir: Dir::Out, ty: None, et: None, excl: 0, prop: 0, und: false, cyc: false, any: 0 };
 /// `VariableLengthConfig::max_paths` default: the exact-set clauses are only evaluated when the specification has fewer paths
 const MAX_PATHS: usize = 1000;
 const PROPS: [&str; 4] = ["w", "w2", "wn", "nope"];
@@ -120,7 +154,7 @@ fn weight(e: &E, prop: u8) -> f64 {
 fn k_name(k: K) -> &'static str {
     match k { K::Path => "path", K::Weighted => "weighted", K::AllPaths => "all_paths", K::Var => "variable", K::Trav => "traverse",
               K::Astar => "astar", K::Scc => "scc", K::Mst => "mst", K::Kcore => "kcore", K::Tri => "triangles", K::Bicon => "biconnected",
-              K::Comp => "components", K::SccPart => "scc_partition", K::MstForest => "mst_forest" }
+              K::Comp => "components", K::SccPart => "scc_partition", K::MstForest => "mst_forest", K::AllWeighted => "all_weighted", K::Pattern => "pattern" }
 }
 fn dir_name(d: Dir) -> &'static str { match d { Dir::Out => "out", Dir::In => "in", Dir::Both => "both" } }
 
@@ -130,6 +164,7 @@ fn case_json(g: &G, q: &Q) -> Value {
            "ty": q.ty, "et": q.et, "excl": q.excl, "prop": PROPS[q.prop as usize], "und": q.und}});
     // "cyc" (allow_cycles) is only written when set, so that the case format of the older obligations is unchanged
     if q.cyc { c["q"]["cyc"] = json!(true); }
+    if q.any != 0 { c["q"]["any"] = json!(q.any); }
     c
 }
 
@@ -151,7 +186,7 @@ fn parse_case(c: &Value) -> Result<(G, Q), String> {
     let k = match q["k"].as_str().ok_or("q.k")? {
         "path" => K::Path, "weighted" => K::Weighted, "all_paths" => K::AllPaths, "variable" => K::Var, "traverse" => K::Trav,
         "astar" => K::Astar, "scc" => K::Scc, "mst" => K::Mst, "kcore" => K::Kcore, "triangles" => K::Tri, "biconnected" => K::Bicon,
-        "components" => K::Comp, "scc_partition" => K::SccPart, "mst_forest" => K::MstForest,
+        "components" => K::Comp, "scc_partition" => K::SccPart, "mst_forest" => K::MstForest, "all_weighted" => K::AllWeighted, "pattern" => K::Pattern,
         o => return Err(format!("unknown query kind {o}")),
     };
     let us = |f: &str| q[f].as_u64().unwrap_or(0) as usize;
@@ -159,7 +194,7 @@ fn parse_case(c: &Value) -> Result<(G, Q), String> {
     let dir = match q["dir"].as_str().unwrap_or("out") { "in" => Dir::In, "both" => Dir::Both, _ => Dir::Out };
     let prop = PROPS.iter().position(|p| Some(*p) == q["prop"].as_str()).unwrap_or(0) as u8;
     Ok((G { n, es }, Q { k, s: us("s"), t: us("t"), min: us("min"), max: us("max"), dir, ty: o8("ty"), et: o8("et"),
-                         excl: us("excl") as u8, prop, und: q["und"].as_bool().unwrap_or(false), cyc: q["cyc"].as_bool().unwrap_or(false) }))
+                         excl: us("excl") as u8, prop, und: q["und"].as_bool().unwrap_or(false), cyc: q["cyc"].as_bool().unwrap_or(false), any: us("any") as u8 }))
 }
 
 // ---------------------------------------------------------------- the real graph
@@ -303,6 +338,39 @@ fn spec_walks(g: &G, s: usize, t: usize, min: usize, max: usize, dir: Dir, ef: &
     rec(g, s, t, min, max, dir, ef, excl, &mut vec![s], &mut vec![], &mut out);
     out.sort();
     out
+}
+
+/// All minimum-weight WALKS s -> t (Outgoing steps, non-negative weights), by exhaustive enumeration: every walk from `s`
+/// whose running weight does not exceed `dmin` (the Bellman-Ford distance, computed separately) is followed for up to 2n hops
+/// and kept when it stands on `t` with weight exactly `dmin`.  None = some minimum-weight walk visits a node twice (it runs
+/// through a closed walk of weight 0): the family of minimum-weight walks is then infinite and "all minimum-weight paths" has
+/// no finite answer under the walk reading (see the module doc).  Otherwise every minimum-weight walk is a simple path and
+/// the returned list is the complete, duplicate-free set.
+fn spec_min_walks(g: &G, s: usize, t: usize, prop: u8, dmin: f64) -> Option<Vec<P>> {
+    #[allow(clippy::too_many_arguments)]
+    fn rec(g: &G, u: usize, t: usize, prop: u8, dmin: f64, acc: f64, ns: &mut Vec<usize>, es: &mut Vec<usize>, out: &mut Vec<P>, infinite: &mut bool) {
+        if *infinite { return; }
+        if u == t && acc == dmin {
+            let mut seen = ns.clone();
+            seen.sort_unstable();
+            seen.dedup();
+            if seen.len() != ns.len() { *infinite = true; return; }
+            out.push((ns.clone(), es.clone()));
+        }
+        if es.len() >= 2 * g.n { return; }
+        for (v, k) in steps(g, u, Dir::Out, &EF::default()) {
+            let c = acc + weight(&g.es[k], prop);
+            if c > dmin { continue; }
+            ns.push(v); es.push(k);
+            rec(g, v, t, prop, dmin, c, ns, es, out, infinite);
+            ns.pop(); es.pop();
+        }
+    }
+    let (mut out, mut infinite) = (vec![], false);
+    rec(g, s, t, prop, dmin, 0.0, &mut vec![s], &mut vec![], &mut out, &mut infinite);
+    if infinite { return None; }
+    out.sort();
+    Some(out)
 }
 
 /// Ok(()) iff (nodes, edges) is a walk s -> t under `dir` using only edges allowed by `ef`, intermediate nodes not excluded
@@ -597,6 +665,95 @@ fn eval(g: &G, b: &Built, q: &Q, sink: Sink) -> bool {
             };
             sink("C18.algos.astar", verdict.is_ok(), &|| format!("astar_path[{} {}] = {:?}: {}", PROPS[q.prop as usize], dir_name(q.dir), r.as_ref().map(|x| &x.path), verdict.clone().err().unwrap_or_default()));
             q.s != q.t && !g.es.is_empty()
+        },
+        K::AllWeighted => {
+            if missing.is_some() {
+                let r = b.e.find_all_weighted_paths(b.id(q.s), b.id(q.t), PROPS[q.prop as usize], None);
+                sink("C18.weighted.all_optimal", node_not_found(&r, MISSING_ID), &|| format!("find_all_weighted_paths with a missing endpoint = {r:?}, expected NodeNotFound"));
+                return false;
+            }
+            // negative weights are the business of C18.weighted.negative
+            if g.es.iter().any(|e| weight(e, q.prop) < 0.0) { return false; }
+            let d = spec_bellman(g, q.s, Dir::Out, &none, q.prop)[q.t];
+            // precondition: the set of minimum-weight walks is finite (no closed walk of weight 0 on a minimum-weight walk);
+            // the call is not made otherwise (module doc: it does not return on such inputs)
+            let want = match d { Some(dm) => match spec_min_walks(g, q.s, q.t, q.prop, dm) { Some(w) => w, None => return false }, None => vec![] };
+            let r = b.e.find_all_weighted_paths(b.id(q.s), b.id(q.t), PROPS[q.prop as usize], None);
+            let verdict: Result<(), String> = match (&r, d) {
+                (Ok(ap), Some(dm)) => (|| {
+                    if ap.total_weight != dm { return Err(format!("total_weight {} but the minimum weight of a walk (Bellman-Ford) is {dm}", ap.total_weight)); }
+                    let mut got = vec![];
+                    for p in &ap.paths {
+                        let (ns, es) = walk_ok(g, b, &p.nodes, &p.edges, q.s, q.t, Dir::Out, &none, 0).map_err(|e| format!("returned path {p:?} (ids) is not a legal walk: {e}"))?;
+                        let sum: f64 = es.iter().map(|k| weight(&g.es[*k], q.prop)).sum();
+                        if sum != p.total_weight || sum != dm { return Err(format!("returned path (node idx, edge idx) {:?} reports weight {}, its edges sum to {sum}, the minimum is {dm}", (&ns, &es), p.total_weight)); }
+                        got.push((ns, es));
+                    }
+                    got.sort();
+                    let returned = got.len();
+                    got.dedup();
+                    // "no path is returned twice": its own clause on graphs with an undirected (non-loop) edge, part of this clause otherwise (module doc)
+                    if g.es.iter().any(|e| !e.d && e.f != e.t) {
+                        sink("C18.weighted.all_optimal.unique", returned == got.len(),
+                             &|| format!("find_all_weighted_paths[{}] returned {returned} paths of which only {} are distinct: {:?}", PROPS[q.prop as usize], got.len(), ap.paths));
+                    } else if returned != got.len() {
+                        return Err(format!("returned {returned} paths of which only {} are distinct: {:?}", got.len(), ap.paths));
+                    }
+                    if got != want { return Err(format!("distinct returned paths (node idx, edge idx) {got:?} but the set of all minimum-weight ({dm}) walks is {want:?}")); }
+                    Ok(())
+                })(),
+                (Err(GraphError::PathNotFound), None) => Ok(()),
+                _ => Err(format!("spec shortest distance = {d:?} (None = unreachable => PathNotFound expected)")),
+            };
+            sink("C18.weighted.all_optimal", verdict.is_ok(), &|| format!("find_all_weighted_paths[{}] = {:?}: {}", PROPS[q.prop as usize], r.as_ref().map(|x| (x.total_weight, x.paths.len())), verdict.clone().err().unwrap_or_default()));
+            q.s != q.t && want.len() + usize::from(d.is_none()) > 0 && !g.es.is_empty()
+        },
+        K::Pattern => {
+            // (a [idx = s]) -[p *min..max, direction, edge type]-> (b [idx = t]); bit 0 / 1 of `any` drop the start / end condition
+            // Incoming / Both on graphs where two non-loop edges join the same pair of nodes: own clause (module doc)
+            let multi = g.es.iter().enumerate().any(|(i, e)| e.f != e.t && g.es[..i].iter().any(|x| (x.f, x.t) == (e.f, e.t) || (x.f, x.t) == (e.t, e.f)));
+            let ob: &'static str = if q.dir == Dir::Out || !multi { "C18.pattern.variable" } else { "C18.pattern.variable.directions" };
+            let mut start = NodePattern::new().variable("a");
+            if q.any & 1 == 0 { start = start.where_eq("idx", PropertyValue::Int(q.s as i64)); } else if q.any & 4 != 0 { start = start.label("N"); }
+            let mut end = NodePattern::new().variable("b");
+            if q.any & 2 == 0 { end = end.where_eq("idx", PropertyValue::Int(q.t as i64)); }
+            let mut ep = EdgePattern::new().variable("p").direction(direction(q.dir)).variable_length(q.min, q.max);
+            if let Some(t) = q.ty { ep = ep.edge_type(TYPES[t as usize]); }
+            let pattern = Pattern::new(PathPattern::new(start, ep, end));
+            let ef = EF { ty: q.ty, et: None };
+            let starts: Vec<usize> = if q.any & 1 == 0 { vec![q.s] } else { (0..n).collect() };
+            let ends: Vec<usize> = if q.any & 2 == 0 { vec![q.t] } else { (0..n).collect() };
+            let mut want: Vec<(usize, usize, Vec<usize>, Vec<usize>)> = vec![];
+            for &s in &starts { if s >= n { continue; } for &t in &ends { if t >= n { continue; }
+                for (ns, es) in spec_simple_paths(g, s, t, q.min, q.max, q.dir, &ef, 0) { want.push((s, t, ns, es)); }
+            } }
+            want.sort();
+            if want.len() >= MAX_PATHS { return false; }
+            let r = b.e.match_pattern(&pattern);
+            let verdict: Result<(), String> = match &r {
+                Ok(res) => (|| {
+                    let mut got = vec![];
+                    for m in &res.matches {
+                        let (Some(a), Some(c), Some(p)) = (m.get_node("a"), m.get_node("b"), m.get_path("p")) else { return Err(format!("a match lacks one of the bindings a, b, p: {m:?}")); };
+                        let (ns, es) = (b.nodes(&p.nodes)?, b.edges(&p.edges)?);
+                        let (ai, ci) = (b.nodes(&[a.id])?[0], b.nodes(&[c.id])?[0]);
+                        if ns.first() != Some(&ai) || ns.last() != Some(&ci) { return Err(format!("match binds a = {ai}, b = {ci} but the path p runs over the nodes {ns:?}")); }
+                        got.push((ai, ci, ns, es));
+                    }
+                    got.sort();
+                    if got != want { return Err(format!("matches (a, b, path nodes, path edges) {got:?} but the simple paths with {}..={} hops are {want:?}", q.min, q.max)); }
+                    if res.stats.matches_found != want.len() || res.stats.truncated { return Err(format!("stats {:?} inconsistent with the {} matches", res.stats, want.len())); }
+                    Ok(())
+                })(),
+                Err(e) => Err(format!("unexpected error {e:?}")),
+            };
+            sink(ob, verdict.is_ok(), &|| format!("match_pattern: {}", verdict.clone().err().unwrap_or_default()));
+            if q.any & 8 != 0 { return !want.is_empty(); }
+            let c = b.e.count_pattern_matches(&pattern);
+            sink(ob, matches!(&c, Ok(x) if *x == want.len() as u64), &|| format!("count_pattern_matches = {c:?}, the brute-force enumeration has {} matches: {want:?}", want.len()));
+            let x = b.e.pattern_exists(&pattern);
+            sink(ob, matches!(&x, Ok(v) if *v == !want.is_empty()), &|| format!("pattern_exists = {x:?}, the brute-force enumeration has {} matches: {want:?}", want.len()));
+            !want.is_empty()
         },
         K::Scc | K::SccPart => {
             let ob: &'static str = if q.k == K::Scc { "C18.algos.scc" } else { "C18.components.partition" };
@@ -978,6 +1135,9 @@ fn extra_queries(g: &G, level: Level) -> Vec<Q> {
         }
     }
     if !light { qs.push(Q { s: n, ..var(0, 0, 0, 1, Dir::Out) }); qs.push(Q { t: n, ..var(0, 0, 0, 1, Dir::Out) }); }
+    // find_all_weighted_paths (C18.weighted.all_optimal): every pair, weight properties w, w2 and (FULL) the absent property
+    for s in 0..n { for t in 0..n { for prop in [0u8, 1, 3] { if full || prop < 3 { qs.push(Q { k: K::AllWeighted, s, t, prop, ..Q0 }); } } } }
+    if !light { qs.push(Q { k: K::AllWeighted, s: n, t: 0, ..Q0 }); qs.push(Q { k: K::AllWeighted, s: 0, t: n, ..Q0 }); }
     qs
 }
 
@@ -1077,6 +1237,16 @@ fn for_sequences(n: usize, lo: usize, hi: usize, f: &mut dyn FnMut(&G, &Built)) 
         for o in opts { p.push(*o); rec(p, opts, lo, hi, f); p.pop(); }
     }
     rec(&mut Pool::new(n), &edge_options(n, true), lo, hi, f);
+}
+
+/// `for_sequences` over a given option list
+fn for_sequences_of(n: usize, opts: &[(usize, usize, bool)], lo: usize, hi: usize, f: &mut dyn FnMut(&G, &Built)) {
+    fn rec(p: &mut Pool, opts: &[(usize, usize, bool)], lo: usize, hi: usize, f: &mut dyn FnMut(&G, &Built)) {
+        if p.g.es.len() >= lo { f(&p.g, &p.b); }
+        if p.g.es.len() == hi { return; }
+        for o in opts { p.push(*o); rec(p, opts, lo, hi, f); p.pop(); }
+    }
+    rec(&mut Pool::new(n), opts, lo, hi, f);
 }
 
 /// every edge MULTISET with lo <= size <= hi (non-decreasing option indices)
@@ -1187,6 +1357,95 @@ fn family_cycles(rep: &mut Report) {
     }
 }
 
+
+// ---------------------------------------------------------------- added families: all minimum-weight paths, variable-length patterns
+
+/// F-improve (C18.weighted.all_optimal): 4 nodes, 7 edge slots 0->3, 0->1, 0->2, 1->2, 1->3, 2->3 and a second (parallel) 1->3,
+/// every slot absent or present with weight 0 / 1 / 2 (w Float and w2 Int carry the same weight): direct heavy edges next to
+/// lighter two- and three-hop routes, diamonds, equal-weight ties, zero weights, parallel edges of different weight.  Four
+/// variants: slots created in the listed order / in reverse order (the heavy direct edge is relaxed first / last), all edges
+/// directed (queries on w) / slots 0, 2, 4, 6 undirected (queries on w2).  Queries (0,3), (0,2), (1,3) and, with undirected
+/// edges, (3,0).
+fn family_improve(rep: &mut Report) -> usize {
+    const SLOTS: [(usize, usize); 7] = [(0, 3), (0, 1), (0, 2), (1, 2), (1, 3), (2, 3), (1, 3)];
+    fn rec(p: &mut Pool, order: &[usize], at: usize, mixed: bool, prop: u8, rep: &mut Report, graphs: &mut usize) {
+        if at == order.len() {
+            *graphs += 1;
+            for (s, t) in [(0, 3), (0, 2), (1, 3), (3, 0)] { if mixed || s < t { run_query(rep, &p.g, &p.b, &Q { k: K::AllWeighted, s, t, prop, ..Q0 }, true); } }
+            return;
+        }
+        rec(p, order, at + 1, mixed, prop, rep, graphs);
+        let slot = order[at];
+        for w in 0..3i64 {
+            let k = p.g.es.len() % 4;
+            p.push_e(E { f: SLOTS[slot].0, t: SLOTS[slot].1, d: !(mixed && slot % 2 == 0), ty: POS_TY[k], w: w as f64, w2: w, wn: POS_WN[k] });
+            rec(p, order, at + 1, mixed, prop, rep, graphs);
+            p.pop();
+        }
+    }
+    let fwd: Vec<usize> = (0..SLOTS.len()).collect();
+    let rev: Vec<usize> = fwd.iter().rev().copied().collect();
+    let mut graphs = 0;
+    for order in [&fwd, &rev] { for mixed in [false, true] { rec(&mut Pool::new(4), order, 0, mixed, u8::from(mixed), rep, &mut graphs); } }
+    graphs
+}
+
+/// pattern queries of one graph (`any` bit 3 = only match_pattern is called, otherwise also count_pattern_matches and
+/// pattern_exists).  Every hop range 1..=3 x 1..=3 (also min > max) with unconstrained start and end (candidates by scan /
+/// by label alternately); given start with free end; given (start, end) pairs; edge type A; min 0; Incoming / Both
+/// (C18.pattern.variable.directions).  `full`: all three calls for every query but the given-start ones, every (start, end)
+/// pair x 3 ranges.
+fn pattern_queries(n: usize, full: bool) -> Vec<Q> {
+    let mut qs = vec![];
+    let only = if full { 0 } else { 8 };
+    let pq = |s: usize, t: usize, min: usize, max: usize, dir: Dir, any: u8| Q { k: K::Pattern, s, t, min, max, dir, any, ..Q0 };
+    for min in 1..=3 { for max in 1..=3 {
+        let three = full || (min, max) == (1, 3) || (min, max) == (2, 2);
+        qs.push(pq(0, 0, min, max, Dir::Out, if (min + max) % 2 == 0 { 3 } else { 7 } | if three { 0 } else { 8 }));
+        if full || (min, max) == (2, 3) { qs.push(pq((min + max) % n, 0, min, max, Dir::Out, 2 | 8)); }
+    } }
+    if full { for s in 0..n { for t in 0..n { for (min, max) in [(1, 3), (2, 2), (2, 3)] { qs.push(pq(s, t, min, max, Dir::Out, 0)); } } } }
+    else { for t in 0..n { qs.push(pq(0, t, 1, 3, Dir::Out, 0)); } }
+    qs.push(Q { ty: Some(0), ..pq(0, 0, 1, 3, Dir::Out, 3 | only) });
+    qs.push(pq(0, 0, 0, 2, Dir::Out, 3 | only));
+    for (min, max) in [(1, 1), (1, 3), (2, 2)] {
+        if full || min != 1 || max != 1 { qs.push(pq(0, 0, min, max, Dir::In, 3 | if min == max { only } else { 0 })); }
+        if full || min != 2 { qs.push(pq(0, 0, min, max, Dir::Both, 3 | if min == max { only } else { 0 })); }
+    }
+    qs
+}
+
+/// F-pattern (C18.pattern.variable): match_pattern / count_pattern_matches / pattern_exists with one variable-length edge on
+///  (a) every ordered sequence of <= 3 edges on 3 nodes (directed self-loops, parallel edges, directed edges and undirected edges
+///      in both creation orientations: 15 options per edge; <= 2 edges: the full query set, 3 edges: the reduced one);
+///  (b) every multiset of <= 3 non-loop edges on 4 nodes (18 options);
+///  (c) 5 nodes: a root with three children 0->1, 0->2, 0->3 created in every order, every subset of the six directed
+///      sibling-to-sibling edges (a->b, a->c, c->b, ...), and the tails {}, {3->4}, {1->4, 2->4, 3->4, 4->0}.
+fn family_patterns(rep: &mut Report) -> (usize, usize, usize) {
+    let (mut n3, mut n4, mut n5) = (0, 0, 0);
+    let (q3f, q3) = (pattern_queries(3, true), pattern_queries(3, false));
+    let o3: Vec<(usize, usize, bool)> = edge_options(3, true).into_iter().filter(|o| o.2 || o.0 != o.1).collect();
+    for_sequences_of(3, &o3, 0, 3, &mut |g, b| { n3 += 1; for q in if g.es.len() <= 2 { &q3f } else { &q3 } { run_query(rep, g, b, q, true); } });
+    let q4 = pattern_queries(4, false);
+    for_multisets(4, &edge_options(4, false), 0, 3, &mut |g, b| { n4 += 1; for q in &q4 { run_query(rep, g, b, q, true); } });
+    let q5 = pattern_queries(5, false);
+    let sib: [(usize, usize); 6] = [(1, 2), (2, 1), (1, 3), (3, 1), (2, 3), (3, 2)];
+    let tails: [&[(usize, usize)]; 3] = [&[], &[(3, 4)], &[(1, 4), (2, 4), (3, 4), (4, 0)]];
+    for order in [[1usize, 2, 3], [1, 3, 2], [2, 1, 3], [2, 3, 1], [3, 1, 2], [3, 2, 1]] {
+        let mut p = Pool::new(5);
+        for c in order { p.push((0, c, true)); }
+        for mask in 0u32..64 { for tail in tails {
+            let before = p.g.es.len();
+            for (i, (f, t)) in sib.iter().enumerate() { if mask >> i & 1 == 1 { p.push((*f, *t, true)); } }
+            for (f, t) in tail { p.push((*f, *t, true)); }
+            n5 += 1;
+            for q in &q5 { run_query(rep, &p.g, &p.b, q, true); }
+            while p.g.es.len() > before { p.pop(); }
+        } }
+    }
+    (n3, n4, n5)
+}
+
 // ---------------------------------------------------------------- added family: components / spanning forests on 6..=24 nodes
 
 /// a small tree given by its edges in creation order (local node numbers)
@@ -1285,7 +1544,7 @@ fn family_components(rep: &mut Report, seed: u64, randoms: usize) -> (usize, usi
 
 fn gcd(a: usize, b: usize) -> usize { if b == 0 { a } else { gcd(b, a % b) } }
 
-const OBLIGATIONS: [(&str, &str); 18] = [
+const OBLIGATIONS: [(&str, &str); 22] = [
     ("C18.components.partition", "GraphEngine::connected_components, strongly_connected_components (graphs of 6..=24 nodes)"),
     ("C18.mst.forest", "GraphEngine::minimum_spanning_tree, minimum_spanning_forest (graphs of 6..=24 nodes)"),
     ("C18.varpaths.cycles", "GraphEngine::find_variable_paths with VariableLengthConfig::allow_cycles(true)"),
@@ -1297,6 +1556,10 @@ const OBLIGATIONS: [(&str, &str); 18] = [
     ("C18.algos.scc", "GraphEngine::strongly_connected_components"), ("C18.algos.mst", "GraphEngine::minimum_spanning_tree"),
     ("C18.algos.kcore", "GraphEngine::kcore_decomposition"), ("C18.algos.triangles", "GraphEngine::count_triangles"),
     ("C18.algos.biconnected", "GraphEngine::biconnected_components"), ("C18.algos.astar", "GraphEngine::astar_path"),
+    ("C18.weighted.all_optimal", "GraphEngine::find_all_weighted_paths"),
+    ("C18.weighted.all_optimal.unique", "GraphEngine::find_all_weighted_paths on graphs with an undirected edge: no path is returned twice"),
+    ("C18.pattern.variable", "GraphEngine::{match_pattern,count_pattern_matches,pattern_exists} with a variable-length edge"),
+    ("C18.pattern.variable.directions", "GraphEngine::{match_pattern,count_pattern_matches,pattern_exists} with a variable-length edge, Direction::Incoming / Both, two edges between the same two nodes"),
 ];
 
 const ADDED: &str = "On every enumerated graph additionally: find_path with edge filter t==B (first created edge rejected) and find_variable_paths with \
@@ -1321,7 +1584,8 @@ pub fn run(tier: Tier, seed: u64) -> Report {
     };
     let mut rep = Report::new("c18_paths", &domain, true,
         &["graph_engine::GraphEngine::find_path", "find_weighted_path", "find_all_paths", "find_variable_paths", "traverse", "strongly_connected_components",
-          "minimum_spanning_tree", "kcore_decomposition", "count_triangles", "biconnected_components", "astar_path", "connected_components", "minimum_spanning_forest"]);
+          "minimum_spanning_tree", "kcore_decomposition", "count_triangles", "biconnected_components", "astar_path", "connected_components", "minimum_spanning_forest",
+          "find_all_weighted_paths", "match_pattern", "count_pattern_matches", "pattern_exists"]);
     for (o, f) in OBLIGATIONS { rep.declare(o, f); }
     // no files are created by this set (in-memory engines only), so there is no tmpdir to remove
     let full_upto = if thorough { 3 } else { 2 };
@@ -1346,6 +1610,13 @@ pub fn run(tier: Tier, seed: u64) -> Report {
     }
     family_filtered(&mut rep);
     family_cycles(&mut rep);
+    let gi = family_improve(&mut rep);
+    let (p3, p4, p5) = family_patterns(&mut rep);
+    rep.domain.push_str(&format!(". find_all_weighted_paths (w, w2, absent property) for every pair of every enumerated graph, and on {gi} four-node graphs (7 edge slots incl. a direct \
+        0->3 edge and a parallel 1->3 edge, each absent or of weight 0/1/2, slots created in both orders, all directed / every other slot undirected), compared with the exhaustively enumerated set \
+        of minimum-weight walks (only when that set is finite). Variable-length patterns (match_pattern, count_pattern_matches, pattern_exists; every hop range 1..=3 x 1..=3 with free and \
+        given endpoints, edge type, min 0, Incoming / Both) on {p3} ordered edge sequences of <= 3 edges on 3 nodes (15 edge options), {p4} multisets of <= 3 non-loop edges on 4 nodes and {p5} five-node \
+        root-with-three-children graphs with every subset of sibling-to-sibling edges, compared with the brute-force set of simple paths"));
     let (n1, n2, n3) = family_components(&mut rep, seed, if thorough { 3000 } else { 300 });
     rep.domain.push_str(&format!(". Components / spanning forests on 6..=24 nodes (connected_components with and without edge type, SCC partition, minimum_spanning_tree / \
         minimum_spanning_forest on w, w2, wn and a missing property): {n1} forests of two trees (9 shapes: single, pair, 2 paths of 3, path of 4, balanced pair of pairs, 2 stars, balanced 8) \
